@@ -29,14 +29,23 @@ def SafeSave (fs0 : FS) (new : Bytes) (tr : List Op) (t : Path) : Prop :=
     shows its disk content plus any prefix of its pending data. -/
 def CrashState (fs0 : FS) (tr : List Op) (v : Path → Option Bytes) : Prop :=
   ∃ pre, pre <+: tr ∧ ∀ p, ∃ k, k ≤ ((run fs0 pre).pend p).length ∧
-    v p = ((run fs0 pre).disk p).map (· ++ ((run fs0 pre).pend p).take k)
+    v p = ((run fs0 pre).disk p).map
+      (overwrite · ((run fs0 pre).off p) (((run fs0 pre).pend p).take k))
 
 section Lemmas
 
+theorem overwrite_nil (d : Bytes) (o : Nat) : overwrite d o [] = d := by
+  simp [overwrite]
+
+theorem overwrite_empty (bs : Bytes) : overwrite [] 0 bs = bs := by
+  simp [overwrite]
+
 theorem step_untouched (fs : FS) (op : Op) (t : Path) (h : touches t op = false) :
-    (step fs op).disk t = fs.disk t ∧ (step fs op).pend t = fs.pend t := by
+    (step fs op).disk t = fs.disk t ∧ (step fs op).pend t = fs.pend t ∧
+      (step fs op).off t = fs.off t := by
   cases op <;> simp only [touches, Bool.or_eq_false_iff, beq_eq_false_iff_ne, ne_eq] at h
   case openTrunc p => simp [step, upd, Ne.symm h]
+  case openKeep p => simp [step, upd, Ne.symm h]
   case write p bs => simp [step, upd, Ne.symm h]
   case flush p => simp [step, FS.flush, upd, Ne.symm h]
   case fsync p => simp [step]
@@ -44,16 +53,16 @@ theorem step_untouched (fs : FS) (op : Op) (t : Path) (h : touches t op = false)
   case rename p q =>
     simp only [step]
     split
-    · exact ⟨rfl, rfl⟩
+    · exact ⟨rfl, rfl, rfl⟩
     · simp [upd, Ne.symm h.1, Ne.symm h.2]
   case unlink p => simp [step, upd, Ne.symm h]
 
 theorem views_congr (fs fs' : FS) (t : Path) (hd : fs'.disk t = fs.disk t)
-    (hp : fs'.pend t = fs.pend t) : views fs' t = views fs t := by
-  simp [views, hd, hp]
+    (hp : fs'.pend t = fs.pend t) (ho : fs'.off t = fs.off t) : views fs' t = views fs t := by
+  simp [views, hd, hp, ho]
 
 theorem views_nopend (fs : FS) (t : Path) (hp : fs.pend t = []) : views fs t = [fs.disk t] := by
-  simp [views, hp]
+  simp [views, hp, overwrite_nil]
 
 /-- a trace that never touches `t`: every crash point shows one of the initial views -/
 theorem crash_untouched (tr : List Op) (t : Path) : ∀ (fs : FS),
@@ -67,19 +76,20 @@ theorem crash_untouched (tr : List Op) (t : Path) : ∀ (fs : FS),
     · exact hc
     · have h1 := step_untouched fs op t (h op (by simp))
       have := ih (step fs op) (fun o ho => h o (by simp [ho])) c hc
-      rwa [views_congr _ _ _ h1.1 h1.2] at this
+      rwa [views_congr _ _ _ h1.1 h1.2.1 h1.2.2] at this
 
 theorem run_untouched (tr : List Op) (t : Path) : ∀ (fs : FS),
     (∀ op ∈ tr, touches t op = false) →
-    (run fs tr).disk t = fs.disk t ∧ (run fs tr).pend t = fs.pend t := by
+    (run fs tr).disk t = fs.disk t ∧ (run fs tr).pend t = fs.pend t ∧
+      (run fs tr).off t = fs.off t := by
   induction tr with
-  | nil => intro fs _; exact ⟨rfl, rfl⟩
+  | nil => intro fs _; exact ⟨rfl, rfl, rfl⟩
   | cons op tr ih =>
     intro fs h
     have h1 := step_untouched fs op t (h op (by simp))
     have h2 := ih (step fs op) (fun o ho => h o (by simp [ho]))
     simp only [run, List.foldl_cons] at h2 ⊢
-    exact ⟨h2.1.trans h1.1, h2.2.trans h1.2⟩
+    exact ⟨h2.1.trans h1.1, h2.2.1.trans h1.2.1, h2.2.2.trans h1.2.2⟩
 
 theorem crashTargets_append (pre : List Op) (tr : List Op) (t : Path) : ∀ (fs : FS) c,
     c ∈ crashTargets fs (pre ++ tr) t →
@@ -151,13 +161,13 @@ theorem safe_atomic (fs0 : FS) (old : Option Bytes) (new : Bytes) (tr : List Op)
     left
     have hsub : ∀ op ∈ p', touches t op = false := fun o ho => hpre o (hp'.subset ho)
     have := run_untouched p' t fs0 hsub
-    rw [views_congr fs0 _ t this.1 this.2, views_nopend _ _ hpend] at hv
+    rw [views_congr fs0 _ t this.1 this.2.1 this.2.2, views_nopend _ _ hpend] at hv
     simpa [hold] using hv
   · have hu := run_untouched pre t fs0 hpre
     simp only [crashTargets, List.mem_append] at hc
     rcases hc with hc | hc
     · left
-      rw [views_congr fs0 _ t hu.1 hu.2, views_nopend _ _ hpend] at hc
+      rw [views_congr fs0 _ t hu.1 hu.2.1 hu.2.2, views_nopend _ _ hpend] at hc
       simpa [hold] using hc
     · right
       have hv := crash_untouched post t _ hpost c hc
@@ -219,7 +229,7 @@ theorem repaired_safe (fs0 : FS) (new : Bytes) (tmp t : Path) (hne : tmp ≠ t) 
   · intro op hop
     simp only [List.mem_cons, List.not_mem_nil, or_false] at hop
     rcases hop with rfl | rfl | rfl | rfl | rfl <;> simp [touches, hne]
-  · simp [run, step, FS.flush, upd]
+  · simp [run, step, FS.flush, upd, overwrite_empty, overwrite_nil]
   · simp [run, step, FS.flush, upd]
 
 theorem repaired_atomic (old : Option Bytes) (new : Bytes) (tmp t : Path) (hne : tmp ≠ t) :
@@ -236,7 +246,7 @@ theorem inplace_not_atomic (fs0 : FS) (new : Bytes) (t : Path) :
     some [] ∈ crashTargets fs0 (inplaceTrace t new) t := by
   simp only [inplaceTrace, crashTargets, List.mem_append]
   right; left
-  simp [views, step, upd]
+  simp [views, step, upd, overwrite_empty]
 
 /-- hence, whenever old and new contents are non-empty, the full-strength claim fails for
     the in-place trace -/
@@ -254,7 +264,7 @@ theorem inplace_truncated (fs0 : FS) (new : Bytes) (t : Path) (k : Nat) (hk : k 
   simp only [inplaceTrace, crashTargets, List.mem_append]
   right; right; left
   simp only [views, List.mem_map, List.mem_range]
-  exact ⟨k, by simp [step, upd]; omega, by simp [step, upd]⟩
+  exact ⟨k, by simp [step, upd]; omega, by simp [step, upd, overwrite_empty]⟩
 
 /-! ### a single failing operation (fault injection) -/
 
@@ -285,7 +295,7 @@ theorem openTrunc_exposes_empty (fs0 : FS) (tr : List Op) (t : Path)
   · have : run fs0 (pre ++ [Op.openTrunc t]) = step (run fs0 pre) (Op.openTrunc t) := by
       simp [run, List.foldl_append]
     rw [this]
-    simp [views, step, upd]
+    simp [views, step, upd, overwrite_empty]
 
 /-- hence such a trace is never of the safe shape when old and new are non-empty files -/
 theorem openTrunc_not_safe (fs0 : FS) (old new : Bytes) (tr : List Op) (t : Path)
@@ -307,6 +317,59 @@ example : some [] ∈ crashTargets (initFS "conf" (some [1, 2, 3]))
 example : ∀ c ∈ crashTargets (initFS "conf" (some [1, 2, 3])) (failedRenameTrace "conf.tmp1" [9, 8]) "conf",
     c = some [1, 2, 3] :=
   failed_rename_cleanup_old _ _ _ _ _ (by decide) (by simp [initFS]) rfl
+
+/-! ### the initial directory: leftovers of an earlier, crashed save -/
+
+/-- a save whose temp file is opened WITHOUT truncation (`os.open(O_WRONLY|O_CREAT)`) -/
+def keepTrace (tmp t : Path) (new : Bytes) : List Op :=
+  [.openKeep tmp, .write tmp new, .flush tmp, .fsync tmp, .close tmp, .rename tmp t]
+
+/-- from a directory without leftover temp file that sequence is a safe save … -/
+theorem keep_clean_dir_safe (fs0 : FS) (new : Bytes) (tmp t : Path) (hne : tmp ≠ t)
+    (hclean : fs0.disk tmp = none) : SafeSave fs0 new (keepTrace tmp t new) t := by
+  refine ⟨[.openKeep tmp, .write tmp new, .flush tmp, .fsync tmp, .close tmp], tmp, [],
+    rfl, hne, ?_, by simp, ?_, ?_⟩
+  · intro op hop
+    simp only [List.mem_cons, List.not_mem_nil, or_false] at hop
+    rcases hop with rfl | rfl | rfl | rfl | rfl <;> simp [touches, hne]
+  · simp [run, step, FS.flush, upd, hclean, overwrite_empty, overwrite_nil]
+  · simp [run, step, FS.flush, upd]
+
+/-- … but when an earlier save was killed and left `stale` in the temp file, the new
+    content only overwrites its beginning: the file that is renamed over the target is
+    `new ++ (tail of stale)` — a mixed file whenever `stale` is longer than `new`.  This is
+    why crash points are also enumerated from every crash state of a previous save. -/
+theorem keep_leftover_mixed (fs0 : FS) (stale new : Bytes) (tmp t : Path) (hne : tmp ≠ t)
+    (hstale : fs0.disk tmp = some stale) :
+    some (new ++ stale.drop new.length) ∈ crashTargets fs0 (keepTrace tmp t new) t := by
+  apply mem_crashTargets_of_prefix _ t fs0 (keepTrace tmp t new) (List.prefix_refl _)
+  have hd : (run fs0 (keepTrace tmp t new)).disk t = some (new ++ stale.drop new.length) := by
+    simp [keepTrace, run, step, FS.flush, upd, hstale, overwrite, Ne.symm hne]
+  have hp : (run fs0 (keepTrace tmp t new)).pend t = [] := by
+    simp [keepTrace, run, step, FS.flush, upd, hstale, Ne.symm hne]
+  rw [views_nopend _ _ hp, hd]; simp
+
+theorem keep_leftover_not_safe (fs0 : FS) (old : Option Bytes) (stale new : Bytes) (tmp t : Path)
+    (hne : tmp ≠ t) (hold : fs0.disk t = old) (hpend : fs0.pend t = [])
+    (hstale : fs0.disk tmp = some stale) (hlen : new.length < stale.length)
+    (hmix : old ≠ some (new ++ stale.drop new.length)) :
+    ¬ SafeSave fs0 new (keepTrace tmp t new) t := by
+  intro hs
+  rcases safe_atomic fs0 old new _ t hold hpend hs _ (keep_leftover_mixed fs0 stale new tmp t hne hstale)
+    with h | h
+  · exact hmix h.symm
+  · have : (new ++ stale.drop new.length).length = new.length := by
+      have := congrArg (Option.map List.length) h; simpa using this
+    simp at this; omega
+
+example : crashTargets (initFSx "conf" (some [1]) [("conf.tmp1", [5, 6, 7, 8])]) (keepTrace "conf.tmp1" "conf" [9]) "conf"
+    = [some [1], some [1], some [1], some [1], some [1], some [1], some [9, 6, 7, 8]] := by decide
+
+example : safeSaveB (initFSx "conf" (some [1]) [("conf.tmp1", [5, 6, 7, 8])]) [9] (keepTrace "conf.tmp1" "conf" [9]) "conf"
+    = false := by decide
+
+example : safeSaveB (initFSx "conf" (some [1]) [("conf.tmp1", [5, 6, 7, 8])]) [9] (repairedTrace "conf.tmp1" "conf" [9]) "conf"
+    = true := by decide
 
 /-- the driver prints `crashGroups`; flattened it is exactly `crashTargets` -/
 theorem crashGroups_flatten (tr : List Op) (t : Path) : ∀ fs : FS,
